@@ -263,3 +263,70 @@ Example ex408_as_coded_refuted : unset_by_path false T_STRUCT (encode ex408_v) [
 Proof. vm_compute. reflexivity. Qed.
 Example ex408_repaired : unset_by_path true T_STRUCT (encode ex408_v) [PField 1; PStrKey []] = UbErr (encode ex408_v).
 Proof. vm_compute. reflexivity. Qed.
+
+(* ======================================================================================================
+   Node.SetMany at ALGORITHM level (model/ThriftEditMany.v, proofs/ThriftEditManyProofs.v).
+   set_many_bytes transcribes SetMany on the BYTES of the container node: getMany (one node or "empty" per request), the
+   pass over the requests in request order that turns every empty node into an insertion point at the front of the
+   container (setNotFound: field header / key bytes in front of the new node, count + 1 IN PLACE each time), the sort of
+   the PathNodes by (address, length) (pnSlice.Less; stable), replaceMany's single pass (gap copy, new bytes, tail copy).
+   (Value.SetMany is commented out in value.go: there is no typed variant.)
+   set_many_spec v items is the effect on the AST, and None outside the domain:
+     * order: the requests that find an element are REPLACEMENTS, applied by ast_set from the highest address down (any
+       order gives the same value: they address distinct children); the others are INSERTIONS, which end up at the FRONT of
+       the container in REQUEST order (= ins_front / ast_set of an absent step, folded over them from the last to the first);
+     * duplicates: two requests for one EXISTING child give overlapping spans (the sorted spans must chain: chain_okb) —
+       outside the domain; in the code a negative gap length is handed to rt.BytesFrom (the model's MUndef, Example
+       exm_dup_undef).  Two requests for the same ABSENT child are both inserted by the code (the container gets a duplicate
+       key) and by the spec alike: ins_front does not look the key up;
+     * domain: requests of the container's family (field ids for a struct, non-negative indexes, keys of the map's kind);
+       every intermediate value within SkipGo's depth and well-formed (API contract of insertions, ins_ok; raw keys decode
+       as keys); a replaced element has the new node's type (SetMany does NOT check it — replaceMany splices whatever it
+       gets); the children of the container have distinct ids / keys (getMany's single scan = first match per request).
+   An error of SetMany (request family does not fit the node) comes before anything is written.
+   ====================================================================================================== *)
+From DG Require Import ThriftEditMany ThriftEditManyProofs.
+
+Theorem C04_replace_many_is_splices : forall bs ps, chain_ok 0 (zlen bs) ps ->
+  replace_many_loop bs (zlen bs) ps 0 [] = Some (fold_right splice bs ps).
+Proof. exact replace_many_is_splices. Qed.
+Print Assumptions C04_replace_many_is_splices.
+
+Theorem C04_set_many_refines : forall v items v2,
+  wf v = true -> (depth v <= max_skip_depth)%nat -> set_many_spec v items = Some v2 ->
+  set_many_bytes (type_of v) (encode v) (map enc_req items) = MOk (encode v2).
+Proof. exact set_many_refines. Qed.
+Print Assumptions C04_set_many_refines.
+
+Theorem C04_set_many_insertion_is_ast_set : forall s x v v', lookup1 v s = LNotFound -> ins_front s x v = Some v' ->
+  ast_set true [s] x v = Some (v', false).
+Proof. exact ins_front_is_ast_set. Qed.
+Print Assumptions C04_set_many_insertion_is_ast_set.
+
+Theorem C04_set_many_error_first : forall t bs s0 xt xb r, api_fits (api_of s0) t = false ->
+  set_many_bytes t bs ((s0, xt, xb) :: r) = MErr.
+Proof. exact set_many_bytes_err. Qed.
+Print Assumptions C04_set_many_error_first.
+
+(* ---- non-vacuity: replacements out of address order, two insertions, a map, a list ---- *)
+Definition exm_struct : tval := VStruct [ (3, VI32 1); (1, VString [97]); (7, VBool 1) ].
+Definition exm_items : list (pstep * tval) :=
+  [ (PField 7, VBool 0); (PField 9, VI16 5); (PField 3, VI32 2); (PField 2, VByte 1) ].
+Example exm_spec : set_many_spec exm_struct exm_items =
+  Some (VStruct [ (9, VI16 5); (2, VByte 1); (3, VI32 2); (1, VString [97]); (7, VBool 0) ]).
+Proof. vm_compute. reflexivity. Qed.
+Example exm_bytes : set_many_bytes T_STRUCT (encode exm_struct) (map enc_req exm_items) =
+  MOk (encode (VStruct [ (9, VI16 5); (2, VByte 1); (3, VI32 2); (1, VString [97]); (7, VBool 0) ])).
+Proof. vm_compute. reflexivity. Qed.
+Definition exm_map : tval := VMap T_STRING T_I32 [ (VString [97], VI32 1); (VString [98], VI32 2) ].
+Example exm_map_spec : set_many_spec exm_map [ (PStrKey [99], VI32 3); (PStrKey [98], VI32 20); (PBinKey [0;0;0;1;100], VI32 4) ] =
+  Some (VMap T_STRING T_I32 [ (VString [99], VI32 3); (VString [100], VI32 4); (VString [97], VI32 1); (VString [98], VI32 20) ]).
+Proof. vm_compute. reflexivity. Qed.
+Example exm_list_spec : set_many_spec (VList T_BYTE [VByte 1; VByte 2]) [ (PIndex 5, VByte 9); (PIndex 0, VByte 7); (PIndex 2, VByte 8) ] =
+  Some (VList T_BYTE [VByte 9; VByte 8; VByte 7; VByte 2]).
+Proof. vm_compute. reflexivity. Qed.
+(* outside the domain: two requests for one existing child (the code's gap length is negative), a replacement of another type *)
+Example exm_dup_undef : set_many_spec exm_struct [ (PField 3, VI32 2); (PField 3, VI32 4) ] = None /\
+  set_many_bytes T_STRUCT (encode exm_struct) (map enc_req [ (PField 3, VI32 2); (PField 3, VI32 4) ]) = MUndef.
+Proof. vm_compute. split; reflexivity. Qed.
+Example exm_wrong_type : set_many_spec exm_struct [ (PField 3, VI64 2) ] = None. Proof. vm_compute. reflexivity. Qed.
